@@ -64,6 +64,14 @@ func SeqProfileFor(name string, seed int64) SeqProfile {
 		p.Trigs = [][2]string{{"ta", "a"}, {"ts", "s"}, {"ta2", "a"}}
 		p.PSchema = 0.2
 		p.PRollback, p.PFailIns = 0.2, 0.1
+	case "c12": // primary keys over a small alphabet: several key operations per transaction, rollbacks, re-keying
+		p.Cols = []ColDesc{{"k", "key", "", "key"}, {"a", "int", "add", numRepr()}}
+		p.Keyed = true
+		p.Idx = []IdxDesc{{"big", "a", "ge", 5}}
+		p.PInsert, p.PDelete, p.PRollback, p.PFailIns = 0.4, 0.2, 0.15, 0.1
+		p.Prologue = ""
+		p.Replica = r.Intn(2) == 0
+		p.MaxBody = 4
 	case "c06": // replica convergence, sequential histories over all kinds
 		p.Cols = []ColDesc{{"a", "int", []string{"add", "affine"}[r.Intn(2)], numRepr()}, {"s", "str", []string{"", "concat"}[r.Intn(2)], "string"},
 			{"b", "bool", "", "bool"}, {"e", "enum", "", "enum"}, {"t", "tok", "", numRepr()}}
